@@ -81,6 +81,8 @@ mod element;
 mod necessity;
 mod options;
 mod parser;
+#[cfg(feature = "xsg_verif")]
+pub mod verif;
 
 pub use element::Element;
 pub use necessity::{merge_necessity, Necessity};
